@@ -94,9 +94,19 @@ def snaky_cases(draw, tier):
         if out is not None:
             spec = out
             inserted.append([i1, i2, p, left, adj])
+    # scalar boxes (no wires at all) anywhere, also between a cap and its cup
+    n_scalars = draw(st.sampled_from([0, 0, 1, 2]))
+    for k in range(n_scalars):
+        sc = specs.scans(spec)
+        i = draw(st.integers(0, len(spec["layers"])))
+        scalar = {"k": "box", "name": "s%d" % k, "dom": [], "cod": [],
+                  "dag": False}
+        layers = [list(l) for l in spec["layers"]]
+        layers.insert(i, [scalar, draw(st.integers(0, len(sc[i])))])
+        spec = dict(spec, layers=layers)
     interp = draw(gen.interpretations([spec], max_dim=2))
     return {"d": spec, "base": base, "inserted": inserted, "interp": interp,
-            "left": draw(st.booleans())}
+            "left": draw(st.booleans()), "scalars": n_scalars}
 
 
 # ------------------------------------------------------------------ oracle
@@ -281,7 +291,8 @@ def check_snaky(case):
         nf = specs.build(spec).normal_form(left=case["left"])
         n_caps = sum(1 for b, _ in case["base"]["layers"] if b["k"] == "cap")
         require(sum(map(is_cap, nf.boxes)) <= n_caps
-                and len(nf) == len(case["base"]["layers"]),
+                and len(nf) == len(case["base"]["layers"])
+                + case.get("scalars", 0),
                 "C07:inserted-snake-not-removed",
                 lambda: "{} -> {}".format(specs.build(spec), nf))
     return info
